@@ -253,6 +253,19 @@ Fixpoint eval_list (es : list expr) : M (list Z) :=
   | e :: r => v <- eval e ;; vs <- eval_list r ;; ret (v :: vs)
   end.
 
+(* call arguments: left to right, each one converted to its parameter's type (range error) before
+   the next one is evaluated; surplus arguments were rejected by the arity test *)
+Fixpoint eval_args (ps : list param) (es : list expr) : M (list Z) :=
+  match es with
+  | [] => ret []
+  | e :: r =>
+      v <- eval e ;;
+      match ps with
+      | p :: pr => v' <- lift (coerce (pty p) v) ;; vs <- eval_args pr r ;; ret (v' :: vs)
+      | [] => vs <- eval_args [] r ;; ret (v :: vs)
+      end
+  end.
+
 Fixpoint exec_list (ss : list stmt) : M unit :=
   match ss with
   | [] => ret tt
@@ -291,11 +304,27 @@ Definition lval_target (lv : lval) : M (ident * list Z) :=
   end.
 End WithRec.
 
-Definition catch_loop (c : ctl unit * state) (continue_ : state -> ctl unit * state) : ctl unit * state :=
-  match c with
-  | (Val _, s) | (Cnt, s) => continue_ s
-  | (Brk, s) => (Val tt, s)
+(* one loop iteration: run [body]; normal end and `continue` go on with [next], `break` ends the loop *)
+Definition loop_step (body next : M unit) : M unit := fun s =>
+  match body s with
+  | (Val _, s') | (Cnt, s') => next s'
+  | (Brk, s') => (Val tt, s')
   | other => other
+  end.
+
+(* change the control outcome, keep the state *)
+Definition map_ctl {A B} (g : ctl A -> ctl B) (m : M A) : M B := fun s =>
+  let '(c, s') := m s in (g c, s').
+
+(* how a finished body becomes the value of the call: the returned value is range-checked against
+   the declared result type (C04) *)
+Definition call_result (rt : option ty) (c : ctl unit) : ctl Z :=
+  match c with
+  | Val _ => Val 0
+  | Ret (Some v) => match rt with Some t => coerce t v | None => Val v end
+  | Ret None => Val 0
+  | Brk | Cnt => Val 0
+  | Fail er => Fail er
   end.
 
 Fixpoint eval (n : nat) (e : expr) {struct n} : M Z :=
@@ -312,23 +341,16 @@ Fixpoint eval (n : nat) (e : expr) {struct n} : M Z :=
     | ECond c a b => x <- eval k c ;; if x =? 0 then eval k b else eval k a
     | EIdx a idx => is_ <- eval_list (eval k) idx ;; m_read a is_
     | ECall f args =>
-        vs <- eval_list (eval k) args ;;
         match find_func f funcs with
         | None => fail EUnbound
         | Some fd =>
-            if (Nat.ltb (List.length vs) (required (fparams fd))) || (Nat.ltb (List.length (fparams fd)) (List.length vs))
+            if (Nat.ltb (List.length args) (required (fparams fd))) || (Nat.ltb (List.length (fparams fd)) (List.length args))
             then fail EArity
             else
+              vs <- eval_args (eval k) (fparams fd) args ;;
               m_push_frame f ;;;
-              finally (fun s =>
-                match (bind_params (eval k) (fparams fd) vs ;;; exec_list (exec k) (fbody fd)) s with
-                | (Val _, s') => (Val 0, s')
-                | (Ret (Some v), s') =>
-                    (match fret fd with Some t => coerce t v | None => Val v end, s')
-                | (Ret None, s') => (Val 0, s')
-                | (Brk, s') | (Cnt, s') => (Val 0, s')
-                | (Fail er, s') => (Fail er, s')
-                end) pop_frame_st
+              finally (map_ctl (call_result (fret fd))
+                         (bind_params (eval k) (fparams fd) vs ;;; exec_list (exec k) (fbody fd))) pop_frame_st
         end
     end
   end
@@ -344,8 +366,8 @@ with exec (n : nat) (st : stmt) {struct n} : M unit :=
           else v <- (match init with Some e => eval k e | None => ret 0 end) ;; m_declare true cst t x [] [v]
         else v <- (match init with Some e => eval k e | None => ret 0 end) ;; m_declare false cst t x [] [v]
     | SArr cst t x dims init => vs <- eval_list (eval k) init ;; m_declare false cst t x dims vs
-    | SAssign lv None e =>
-        tg <- lval_target (eval k) lv ;; v <- eval k e ;; m_write (fst tg) (snd tg) v
+    | SAssign lv None e =>        (* the value first, then the target's index expressions *)
+        v <- eval k e ;; tg <- lval_target (eval k) lv ;; m_write (fst tg) (snd tg) v
     | SAssign lv (Some o) e =>
         tg <- lval_target (eval k) lv ;; old <- m_read (fst tg) (snd tg) ;; v <- eval k e ;;
         r <- lift (arith o old v) ;; m_write (fst tg) (snd tg) r
@@ -357,15 +379,15 @@ with exec (n : nat) (st : stmt) {struct n} : M unit :=
     | SWhile c body =>
         x <- eval k c ;;
         if x =? 0 then ret tt
-        else fun s => catch_loop (in_block (exec k) body s) (exec k (SWhile c body))
+        else loop_step (in_block (exec k) body) (exec k (SWhile c body))
     | SFor init c upd body =>
         (* `continue` still runs the update; the loop re-enters as a for without initialiser *)
         m_push_scope ;;;
         finally (exec_list (exec k) init ;;;
                  x <- eval k c ;;
                  if x =? 0 then ret tt
-                 else fun s => catch_loop (in_block (exec k) body s)
-                                 (exec_list (exec k) upd ;;; exec k (SFor [] c upd body))) pop_scope_st
+                 else loop_step (in_block (exec k) body)
+                                (exec_list (exec k) upd ;;; exec k (SFor [] c upd body))) pop_scope_st
     | SBreak => lift Brk
     | SContinue => lift Cnt
     | SReturn None => lift (Ret None)
